@@ -114,6 +114,8 @@ def gen_pad(rng, cid, nmax=4):
                 "args": {"data": gen.rand_data(rng, dims_shape), "widths": widths,
                          "boundary": rand_spelling(rng, axnames, gen.RULES),
                          "fill_value": rand_spelling(rng, axnames, [-3, 0, 2, 7])}}
+        if rng.random() < 0.2:
+            case["args"]["npnum"] = rng.choice(["f64", "f32", "i64", "float"])
         if rng.random() < 0.25:
             # an earlier padding call on the same Grid with other per-call choices: the rule in force for THIS call is
             # resolved from this call's arguments and the Grid's settings, not from what an earlier call was given
